@@ -206,6 +206,14 @@ func clientOpts(c caseSpec, name string) rig.ClientOpts {
 
 var dialTrackers sync.Map // *gortsplib.Client -> *rig.DialTracker
 
+// reportPeriod: 0 (library default, 10 s) or 2 ms, by the case's seed.
+func reportPeriod(c caseSpec) time.Duration {
+	if c.Seed%2 == 0 {
+		return 2 * time.Millisecond
+	}
+	return 0
+}
+
 // runCase executes one cut x action case.
 func runCase(c caseSpec) {
 	if aborted.Load() {
@@ -227,6 +235,9 @@ func runCase(c caseSpec) {
 		UDP: true, Multicast: c.Transport == "mcast", TLS: c.TLS, HandlerSet: "full", NoLog: true,
 		OnEvent: log.onEvent, Desc: desc, ReadTimeout: ioTimeout, WriteTimeout: ioTimeout, IdleTimeout: 2 * time.Second,
 		WriteQueueSize: 64,
+		// frequent RTCP reports (half of the cases): the report goroutines of sessions and streams
+		// are busy while everything is being closed
+		SenderReportPeriod: reportPeriod(c), ReceiverReportPeriod: reportPeriod(c),
 		PreStart: func(ts *rig.TestServer) {
 			ts.Core.OnRecordPacket = func(ss *gortsplib.ServerSession, _ *description.Media, _ format.Format, _ *rtp.Packet) {
 				// a deliberately slow application callback: a packet that is being processed
